@@ -597,6 +597,7 @@ def collect_binding_information_head(head: AST, body: list[AST]) -> tuple[set[AS
             bound, unbound = _collect_binding_information_conditions(element.condition, bound_in_body)
             need_bound_l = set(collect_ast(element.literal, "Variable"))
             need_bound_variables.update(need_bound_l - bound)
+            need_bound_variables.update(unbound)
             no_bound_needed.update(bound)
     need_bound_variables = set(filter(lambda var: var.name != "_", need_bound_variables))
     no_bound_needed = set(filter(lambda var: var.name != "_", no_bound_needed))
